@@ -57,6 +57,8 @@ let run_op (op : string) (args : Sx.t list) : opres =
       let first o = (match o with OVal (VList [v]) -> OVal v | OVal _ -> OBad "axis0-shape" | o -> o) in
       { res with model = first res.model; spec = first res.spec }
     else res
+  | ("sort" | "argsort"), [a; asc; _stable; l] ->
+    ax_op (sort_model (bool_of_sx asc) (op = "argsort") (z a)) (sort_spec (bool_of_sx asc) (op = "argsort") (z a)) l
   | "localindex", [a; l] -> ax_op (localindex_model (z a)) (localindex_spec (z a)) l
   | "rpad", [tg; a; l] -> ax_op (rpad_model (z tg) (z a)) (rpad_spec (z tg) (z a)) l
   | "rpadclip", [tg; a; l] -> ax_op (rpadclip_model (z tg) (z a)) (rpadclip_spec (z tg) (z a)) l
@@ -100,9 +102,11 @@ let verdict id op args impl =
             | IErr "value" | IErr "runtime" -> (OErr, true)
             | IErr c -> (OBad ("impl-exception-" ^ c), true)
             | ICrash _ -> (OBad "crash", true)) in
-        let sm = obs_eq r.model r.spec in
+        let nomodel = (r.model = OBad "fuel") in
+        let sm = nomodel || obs_eq r.model r.spec in
         let is_ = obs_eq i r.spec in
-        if is_ && sm && closure_ok then Printf.sprintf "(%s agree %s)" id (match i with OErr -> "err" | _ -> "ok")
+        if is_ && sm && closure_ok then
+          Printf.sprintf "(%s agree %s%s)" id (match i with OErr -> "err" | _ -> "ok") (if nomodel then " nomodel" else "")
         else if is_ && sm then
           Printf.sprintf "(%s viol closure (impl %s))" id (string_of_obs i)
         else if not is_ then
